@@ -292,7 +292,7 @@ class Reproducible(Harness):
     bounds = {"quick": "2 configurations (one using every built-in agent, market and event class with correlated "
                        "fundamentals, 12 steps; one small with TestAgent / MarketShareFCNAgent, 6 steps) x seeds {2, 7}; "
                        "reference run in freshly imported pams vs the same run after a different simulation",
-              "thorough": "seeds {2, 7, 11, 12345}"}
+              "thorough": "seeds {2, 7, 11, 12345, 100..119}"}
     stubs = ("random.* module functions, numpy.random.* legacy functions, time.*, os.urandom -> nondeterministic stubs",
              "random.Random() / numpy default_rng() without a seed -> reported",
              "the name `set` in every pams module -> set whose iteration order over strings is solver-chosen",
@@ -308,7 +308,7 @@ class Reproducible(Harness):
     query_timeout_ms = 60000
 
     def cases(self, tier):
-        seeds = (2, 7) if tier == "quick" else (2, 7, 11, 12345)
+        seeds = (2, 7) if tier == "quick" else (2, 7, 11, 12345) + tuple(range(100, 120))
         return [{"config": c, "seed": s} for c in ("full", "small") for s in seeds]
 
     def run(self, g, case):
